@@ -208,7 +208,8 @@ func c14Step(h afero.File, ref *refFile, tag string) {
 // Harness_C14_handle_matches_byte_array: an open handle against a byte-array reference for every sequence
 // of up to N symbolic calls, then Close, Stat and a fresh read.
 func Harness_C14_handle_matches_byte_array() {
-	if vm.Bool("fileWriteCache") {
+	fileCache := vm.Bool("fileWriteCache")
+	if fileCache {
 		verifWriteCacheType = config.WriteCacheTypeFile
 	}
 	v := verifNewFS(config.PipeConfig{}, false, true)
@@ -230,7 +231,8 @@ func Harness_C14_handle_matches_byte_array() {
 		return
 	}
 	steps := 2
-	if vm.Tier() == "thorough" {
+	if vm.Tier() == "thorough" && !fileCache {
+		// (three calls with the memory cache, whose wrapper is STFS's own code; the file cache is an *os.File)
 		steps = 3
 	}
 	for i := 0; i < steps; i++ {
